@@ -104,6 +104,9 @@ func writerKind(id int) string {
 func wantsLevel(id int) bool { k := writerKind(id); return id > 0 && (k == "ls" || k == "pls") }
 
 func getWriter(id int) io.Writer {
+	if id == 0 {
+		return nil // a nil writer: every writer operation has to ignore it
+	}
 	if w, ok := writerPool[id]; ok {
 		return w
 	}
